@@ -52,7 +52,7 @@ def run(ck: Check) -> None:
     from .. import impl
 
     cases, want = [], []
-    for i in range(250 if ck.thorough else 60):
+    for i in range(ck.n(250, 60)):
         k = gen.key(rng.randrange(10))
         data = bytes(rng.getrandbits(8) for _ in range(rng.choice([0, 1, 17, 64, 300]))) if i % 2 else gen.oracle_bytes(envgen.payload(rng))
         hdr = gen.rand_hdr(rng) if i % 3 else gen.GPG_HDR_TYPICAL
@@ -108,7 +108,7 @@ def run(ck: Check) -> None:
     fprs_bad = [FPR.upper(), FPR[:-1], FPR + "0", " " + FPR, FPR[:4] + " " + FPR[4:], FPR[:-1] + "g", "", None, 5, FPR.encode(), [FPR], proto.Opaque(0)]
     fprs_fetch = [FPR.upper(), "F075 DD2F 6F4C B3BD 7613  4BBB 81B6 CA16 EF9C D589", "f075\xa0dd2f6f4cb3bd76134bbb81b6ca16ef9cd589", FPR[:-1], FPR + "\n", "\uff26" + FPR[1:],
                   "\u0130" + FPR[1:], None, 5, FPR.encode(), bytearray(FPR.encode()), [FPR], proto.Opaque(0), ""]
-    for i in range(120 if ck.thorough else 40):
+    for i in range(ck.n(120, 40)):
         k = gen.key(rng.randrange(10))
         payload = envgen.payload(rng)
         env = gen.envelope(payload)
@@ -162,7 +162,7 @@ def run(ck: Check) -> None:
     ck.count("gnupg-keys", len(fprs))
     icases, iwant = [], []
     d = impl.scratch_dir()
-    for i in range(40 if ck.thorough else 8):
+    for i in range(ck.n(40, 8)):
         md = gen.root_md([gen.key(1)], 1, [gen.key(2)], 1, version=i + 1) if i % 2 else envgen.payload(rng)
         env = gen.envelope(md)
         signers = rng.sample(fprs, rng.randint(1, len(fprs)))
